@@ -1,6 +1,6 @@
 """property -> rule sets (DESIGN §4)"""
 from engine import ok, bad, assumed, floor
-import r_lock, r_panic, r_errd, r_order, r_misc, r_nowrap, r_desc, r_registry, r_effects, r_value, r_ctx, r_parse
+import r_lock, r_panic, r_errd, r_order, r_misc, r_nowrap, r_desc, r_registry, r_effects, r_value, r_ctx, r_parse, r_num
 
 PROPS = {}
 
@@ -297,3 +297,23 @@ def c05(ctx):
     bodies = [ctx.prog.by_id[i] for i in sorted(roles.reach)]
     obs += r_errd.rule_errd(bodies, extra_callee_pred=fallible_conv)
     return obs, {'analysed': {'parse_reach': len(bodies), 'parse_bodies': len(roles.parse_bodies)}}
+
+
+@prop('C09',
+      'TYCHAIN: the Number payload of the token type, of Literal and of Value is rust_decimal::Decimal, and PartialEq for Value is the derived impl (so == on numbers is Decimal\'s scale-insensitive equality). '
+      'WFLOAT: in the number scanner, the literal evaluator, Value::decimal and every built-in handler with its callees there is no f32/f64 local, no call to Value::float / to_f64 / from_f64*, and no scale-changing method (round*, trunc*, floor, ceil, normalize, rescale, set_scale, round_sf*, fract). '
+      'LITPATH: Decimal::from_str is applied to a plain slice of the input; its Ok payload reaches the Number token, Literal::Number and Value::Number by moves only (From<Decimal> is the identity wrap); its Err arm fails (a literal that is not a valid decimal is rejected, not truncated). '
+      'HTYPED/TACC (C03) make the arithmetic handlers obtain their operands through decimal() unchanged.',
+      not_decided='exactness of the results themselves (rust_decimal\'s arithmetic is trusted, not analysed) and digit/scale preservation inside Decimal::from_str',
+      assumptions=COMMON_ASSUME + ['rust_decimal checked_add/sub/mul/rem are exact when they return Some'])
+def c09(ctx):
+    prog = ctx.prog
+    roles = parse_roles(ctx)
+    em = eval_model(ctx)
+    obs = r_num.rule_tychain(prog, roles)
+    bodies = r_num.number_scope(prog, roles, em)
+    obs += r_num.rule_wfloat(bodies)
+    obs += r_num.rule_literal_path(prog, roles, em)
+    obs += r_value.rule_tacc(prog)
+    obs += r_value.rule_htyped(prog, prog.builtin_handlers())
+    return obs, {'analysed': {'number_path_bodies': len(bodies)}}
